@@ -409,6 +409,9 @@ def rule_x(repo, run):
     # values are passed the way the C wrapper takes them (by value / by reference) and struct members sit at the C offsets
     import_rules(run, R, c04, repo, {"C04.R1"}, only=lambda c: c.endswith(":by-value"))
     import_rules(run, R, c04, repo, {"C04.R12", "C04.R13"})
+    # a result by value / by reference / by pointer is fetched by the statements written for that form (C02.R14, C02.R15)
+    from checks import c02 as c02_
+    import_rules(run, R, c02_, repo, {"C02.R14", "C02.R15"}, only=lambda c: not c.startswith("C06"))
     import_rules(run, R, c10, repo, {"C10.R2", "C10.R5"})
     import_rules(run, R, c08, repo, {"C08.R3", "C08.R4"}, only=lambda c: not c.startswith("wrapp."))
     # enumerators are passed as argument values: the Fortran parameters must carry the C++ values (C11.R1, C11.R2)
